@@ -30,8 +30,8 @@ def isNickErr (c : Bytes) : Bool := c = c433 || c = c436 || c = c437
 /-- The nickname a collision numeric "<client> <nick> :reason" rejects (else the current one). -/
 def rejectedNick (cfg : Cfg) (st : St) (e : Event) : Bytes :=
   match e.params with
-  | _ :: n :: _ => if isValidNick n then n else getNick cfg st
-  | _ => getNick cfg st
+  | _ :: n :: _ => if isValidNick n then n else collisionBase cfg st
+  | _ => collisionBase cfg st
 
 def nickEvent (n : Bytes) : Event := { command := cNICK, params := [n] }
 
@@ -77,7 +77,7 @@ theorem rejectedNick_tagged (cfg : Cfg) (cs : CState) (e : Event) :
   unfold tagged
   split
   · rfl
-  · simp only [rejectedNick, getNick_handleTags]
+  · simp only [rejectedNick, collisionBase, getNick_handleTags]
 
 theorem nickCollision_none (cfg : Cfg) (st : St) (e : Event) (hcb : cfg.nickCollide = .none) :
     nickCollision cfg st e = [Out.send (nickEvent (rejectedNick cfg st e ++ [0x5F]))] := by
